@@ -14,7 +14,7 @@ FMTS = ['slice', 'uncompressed', 'compressed']
 
 
 def cases(tier, seed):
-    n = 40 if tier == 'quick' else 15000
+    n = 200 if tier == 'quick' else 15000
     return [(1 + (i % 2), i) for i in range(2 * n)]
 
 
